@@ -843,10 +843,75 @@ def directed_misc(rng):
     return cases
 
 
+def directed_listeners(rng, count):
+    """parameters that carry listeners (audit F1): a list with 1-3 mirror listeners between its own
+    parameters (chains and cycles included), then copies / sub-lists / assignments of it and writes
+    through the original and through the copies, single and bulk; only the operations that have a
+    listener-aware model step are used after the first `listen`"""
+    cases = []
+    for n in range(count):
+        ops = []
+        size = rng.randint(2, 5)
+        names = rng.sample(NAMES, size)
+        cons = [rng.choice(CONS) if rng.random() < 0.5 else "-" for _ in names]
+        for nm, c in zip(names, cons):
+            ops.append("add 0 %s %d %s" % (nm, inside(rng, c), c))
+        if rng.random() < 0.3:
+            ops.append("copy 0 2")                    # a copy taken *before* any listener exists
+        for _ in range(rng.randint(1, 3)):
+            a, b = rng.sample(names, 2)
+            ops.append("listen 0 %s %s" % (a, b))
+        if rng.random() < 0.1:
+            ops.append("listen 0 %s zz" % names[0])   # unknown target
+        held = {0: list(names)}
+        if ops.count("copy 0 2"):
+            held[2] = list(names)
+        for _ in range(rng.randint(4, 14)):
+            r = rng.random()
+            k = rng.choice(sorted(held))
+            if r < 0.3 and held[k]:
+                nm = rng.choice(held[k])
+                c = cons[names.index(nm)] if nm in names else "-"
+                q = inside(rng, c) if rng.random() < 0.8 else rng.randint(-16, 20)
+                ops.append("setv %d %s %d" % (k, nm, q))
+            elif r < 0.45:
+                j = rng.choice([1, 2, 3])
+                ops.append("%s %d %d" % (rng.choice(["copy", "clone", "assign"]), k, j))
+                held[j] = list(held[k])
+            elif r < 0.55 and held[k]:
+                j = rng.choice([1, 2, 3])
+                ns = rng.sample(held[k], rng.randint(1, len(held[k])))
+                if rng.random() < 0.15:
+                    ns.append("zz")
+                ops.append("subn %d %d %s" % (k, j, " ".join(ns)))
+                if "zz" not in ns:
+                    held[j] = ns
+            elif r < 0.75 and held[k]:
+                # a bulk update from a fresh source in register 4
+                ops.append("reset 4")
+                for nm in rng.sample(held[k], rng.randint(1, len(held[k]))):
+                    c = cons[names.index(nm)] if nm in names else "-"
+                    q = inside(rng, c) if rng.random() < 0.85 else rng.randint(-16, 20)
+                    ops.append("add 4 %s %d -" % (nm, q))
+                ops.append("setvs %d 4" % k)
+            elif r < 0.85 and held[k]:
+                nm = rng.choice(held[k])
+                ops.append(rng.choice(["getv %d %s", "param %d %s", "which %d %s"]) % (k, nm))
+            elif r < 0.92 and held[k]:
+                nm = rng.choice(held[k])
+                ops.append("del %d %s" % (k, nm))
+                held[k] = [x for x in held[k] if x != nm]
+            else:
+                ops.append("names %d" % k)
+        cases.append(["case listeners%d" % n] + ops)
+    return cases
+
+
 def generate(seed, tier):
     rng = random.Random(seed)
     cases = directed(rng)
     cases += directed_assign(rng) + directed_owner(rng) + directed_delis(rng) + directed_ns(rng) + directed_misc(rng)
+    cases += directed_listeners(rng, 600 if tier == "thorough" else 120)
     nrand = 30000 if tier == "thorough" else 2500
     for i in range(nrand):
         cases.append(gen_case(rng, "rnd%d" % i, rng.randint(12, 60)))
